@@ -13,6 +13,7 @@ import (
 // R1 effective recover, R2 goroutine containment, R4 failure accounting survives panics.
 
 func init() {
+	register("R3", "goroutines that serve ALL peers of a server (the UDP handler's receive and send loops) contain faults per item: inside their loops no byte buffer is sliced or indexed with a bound that is not checked against the buffer, because a panic there, although recovered, ends the loop and closes the server socket for everybody", 2, ruleR3)
 	register("R1", "every recover() the code relies on is effective under the Go specification: it is called directly by a deferred function (a deferred literal, or a named function that is only ever used as the operand of defer)", 20, ruleR1)
 	register("R2", "from every goroutine entry (go statements, WorkerPool.Submit closures, handlers run by foreign goroutines) request-path callbacks, codec and io coding, explicit panics and unchecked byte-buffer slicing are reached only under an effective deferred recover", 30, ruleR2)
 	register("R4", "in Service.Process, Cluster.Handler, CircuitBreaker.IOHandler and the failure-aware load balancers the downstream call is dominated by a defer whose literal contains an effective recover that turns the panic into the error result, with the failure accounting in that literal", 5, ruleR4)
@@ -174,6 +175,22 @@ func (x *r2) boundChecked(info *types.Info, buf ast.Expr, bound ast.Expr, at ast
 	}
 	broot := identObj(info, buf)
 	if d, ok := x.defs[bo]; ok && d != nil {
+		// n := c + copy(buf[k:], src): bounded by the buffer by construction
+		de := ast.Unparen(d)
+		if be, ok := de.(*ast.BinaryExpr); ok && be.Op == token.ADD {
+			if _, isC := intConst(info, be.X); isC {
+				de = ast.Unparen(be.Y)
+			}
+		}
+		if call, ok := de.(*ast.CallExpr); ok && IsBuiltin(info, call, "copy") && len(call.Args) == 2 {
+			ar := ast.Unparen(call.Args[0])
+			if se, ok := ar.(*ast.SliceExpr); ok {
+				ar = se.X
+			}
+			if broot != nil && identObj(info, ar) == broot {
+				return true
+			}
+		}
 		if call, ok := ast.Unparen(d).(*ast.CallExpr); ok {
 			for _, a := range call.Args {
 				ar := ast.Unparen(a)
@@ -185,6 +202,36 @@ func (x *r2) boundChecked(info *types.Info, buf ast.Expr, bound ast.Expr, at ast
 				}
 			}
 		}
+	}
+	// multi-value form: n, addr, err := conn.ReadFromUDP(buf[:])
+	var root ast.Node = at
+	for y := x.parents[at]; y != nil; y = x.parents[y] {
+		root = y
+	}
+	multi := false
+	ast.Inspect(root, func(m ast.Node) bool {
+		as, ok := m.(*ast.AssignStmt)
+		if !ok || len(as.Rhs) != 1 || len(as.Lhs) < 2 {
+			return true
+		}
+		if identObj(info, as.Lhs[0]) != bo {
+			return true
+		}
+		if call, ok := ast.Unparen(as.Rhs[0]).(*ast.CallExpr); ok {
+			for _, a := range call.Args {
+				ar := ast.Unparen(a)
+				if se, ok := ar.(*ast.SliceExpr); ok {
+					ar = se.X
+				}
+				if broot != nil && identObj(info, ar) == broot {
+					multi = true
+				}
+			}
+		}
+		return true
+	})
+	if multi {
+		return true
 	}
 	for y := x.parents[at]; y != nil; y = x.parents[y] {
 		ifs, ok := y.(*ast.IfStmt)
@@ -613,6 +660,52 @@ func ruleR4(r *Run) {
 			r.Ok(key, fd.Pos(), "downstream call dominated by a recovering defer that sets the error")
 		} else {
 			r.Viol(key, fd.Pos(), why+": a panicking downstream handler bypasses the failure accounting (or escapes as a panic instead of an error result)")
+		}
+	}
+}
+
+// ---------------------------------------------------------------------------------------
+// R3
+
+func ruleR3(r *Run) {
+	p := r.P
+	for _, fn := range []string{"Handler.receive", "Handler.send"} {
+		key := "shared loop rpc/udp." + fn
+		fd, pkg := p.DeclOf("rpc/udp", fn)
+		if fd == nil {
+			r.Undec(key, 0, "function not found")
+			continue
+		}
+		info := pkg.TypesInfo
+		x := &r2{p: p, defs: localDefs(info, fd.Body), parents: parentMap(fd.Body)}
+		bad := ""
+		var badPos token.Pos
+		ast.Inspect(fd.Body, func(n ast.Node) bool {
+			if bad != "" {
+				return false
+			}
+			fs, ok := n.(*ast.ForStmt)
+			if !ok {
+				return true
+			}
+			ast.Inspect(fs.Body, func(m ast.Node) bool {
+				if bad != "" {
+					return false
+				}
+				switch m.(type) {
+				case *ast.SliceExpr, *ast.IndexExpr:
+					if h := x.hazardIndex(info, m); h != "" {
+						bad, badPos = h, m.Pos()
+					}
+				}
+				return true
+			})
+			return false
+		})
+		if bad != "" {
+			r.Viol(key, badPos, bad+" inside the loop that serves every peer: one crafted or oversized message panics the loop, the recover ends it and the server socket is closed for all clients")
+		} else {
+			r.Ok(key, fd.Pos(), "no unchecked buffer slicing inside the shared loop")
 		}
 	}
 }
